@@ -31,6 +31,18 @@ INSTANCE AbyStore WITH KLen <- TrKLen, VLen <- TrVLen, KH <- TrKH
 \* lossy UTF-8 decoding on value ids: declared images (vals entries with lossy_of), identity otherwise
 TrLossy == FoldLeft(LAMBDA acc, v : IF Has(v, "lossy_of") THEN (v.lossy_of :> v.id) @@ acc ELSE acc, <<>>, AllValEnts)
 Lossy(v) == IF v \in DOMAIN TrLossy THEN TrLossy[v] ELSE v
+\* the full 64-bit hash (limbs) per key, for tables whose stored bucket count is not a power of two (which
+\* the crate never creates; only then the low 30 bits do not determine hash mod n)
+TrKH4 == FoldLeft(LAMBDA acc, k : IF Has(k, "h4") THEN (k.id :> k.h4) @@ acc ELSE acc, <<>>, AllKeyEnts)
+IsPow2(n) == n > 0 /\ \E e \in 0..30 : n = 2 ^ e
+\* w mod n by Horner over the 16 nibbles (n < 2^27, so nothing exceeds 32 bits)
+Nibble(w, j) == (w[(j \div 4) + 1] \div (16 ^ (j % 4))) % 16        \* j = 0..15, least significant first
+RECURSIVE ModNib(_, _, _, _)
+ModNib(w, n, j, acc) == IF j < 0 THEN acc ELSE ModNib(w, n, j - 1, (acc * 16 + Nibble(w, j)) % n)
+HashMod(k, n) == IF IsPow2(n) \/ k \notin DOMAIN TrKH4 THEN TrKH[k] % n ELSE ModNib(TrKH4[k], n, 15, 0)
+\* keys of every chain sit in the bucket the documented placement (H mod n) assigns, for any n
+BucketsAnyN(S, D) == \A b \in DOMAIN S.heads : \A o \in {D.ch[b][1][i] : i \in 1..Len(D.ch[b][1])} :
+                        LET k == S.kf.slots[o].id IN k \in DOMAIN TrKLen /\ HashMod(k, S.n) = b
 KeyIds == DOMAIN TrKLen
 ValIds == DOMAIN TrVLen
 \* C12.placement: the placement hash of every short key, recomputed inside TLC from the key
@@ -122,7 +134,7 @@ StateFails(j, S, D, m) ==
     IN IF ~sigok THEN {"C12.header"} ELSE
        (IF HeadsOK(S) THEN {} ELSE {"C05.heads"})
        \cup (IF chok THEN {} ELSE {"C05.chains"})
-       \cup (IF ~chok \/ BucketsOKD(S, D) THEN {} ELSE {"C05.buckets", "C12.placement"})
+       \cup (IF ~chok \/ (IF IsPow2(S.n) THEN BucketsOKD(S, D) ELSE S.n < 134217728 /\ BucketsAnyN(S, D)) THEN {} ELSE {"C05.buckets", "C12.placement"})
        \cup (IF NoDupKeysD(S, D) THEN {} ELSE {"C05.nodup"})
        \cup (IF vrok THEN {} ELSE {"C05.valrefs"})
        \cup (IF NoSharedValD(S, D) THEN {} ELSE {"C05.shared"})
@@ -225,15 +237,23 @@ StatsModelFails(r, m) ==
 (*************************************************************************************)
 IterFails(e, mm) ==
     LET items == e.items
-        keys  == [i \in 1..Len(items) |-> items[i][1]]
-        vals  == [i \in 1..Len(items) |-> items[i][2]]
+        ni    == Len(items)
         n     == M!MLen(mm)
-        okitems == CASE e.flavour = "keys"   -> M!KeysAreMap(keys, mm)
-                     [] e.flavour = "values" -> M!ValuesAreMap(vals, mm)
+        \* keys() / values(): the projections as multisets (the items are used directly: projecting them into
+        \* LET-bound functions first makes TLC re-convert those functions at every use)
+        keysok == /\ ni = n /\ \A i \in 1..ni : items[i][1] \in DOMAIN mm
+                  /\ Cardinality({items[i][1] : i \in 1..ni}) = ni
+        dom    == SetToSeq(DOMAIN mm)
+        mv     == [i \in 1..n |-> mm[dom[i]]]
+        mvs    == {mv[i] : i \in 1..n}
+        valsok == /\ ni = n /\ {items[i][2] : i \in 1..ni} = mvs
+                  /\ \A v \in mvs : Cardinality({i \in 1..ni : items[i][2] = v}) = Cardinality({i \in 1..n : mv[i] = v})
+        okitems == CASE e.flavour = "keys"   -> keysok
+                     [] e.flavour = "values" -> valsok
                      [] OTHER                -> M!ItemsAreMap(items, mm)
     IN (IF okitems /\ ~e.overrun THEN {} ELSE {"C04.items"})
-       \cup (IF Len(items) = n THEN {} ELSE {"C04.count"})
-       \cup (IF Len(items) # n \/ M!HintsExact(e.hints, n) THEN {} ELSE {"C04.hints"})
+       \cup (IF ni = n THEN {} ELSE {"C04.count"})
+       \cup (IF ni # n \/ M!HintsExact(e.hints, n) THEN {} ELSE {"C04.hints"})
        \cup (IF e.fused THEN {} ELSE {"C04.fused"})
 
 Tally(P, DP, S, DS, k) ==
@@ -485,7 +505,7 @@ Proc(e) ==
                 \* the decoder's native monitor mirrors the formulas: both must agree on whether the
                 \* state is structurally sound at all (a disagreement is a tool error, never a verdict)
                 nf == IF Has(e, "native") THEN
-                         IF (Len(e.native.fails) = 0) = ({x \in sf : x \notin {"C05.content", "C12.header", "C12.placement"}} = {})
+                         IF (Len(e.native.fails) = 0) = ({x \in sf : x \notin {"C05.content", "C12.header", "C12.placement", "C07.n"}} = {})
                          THEN {} ELSE {"TOOL.native_disagrees"}
                       ELSE {}
             IN [base EXCEPT !.fails = sf \cup stepf \cup bf \cup nf,
